@@ -230,6 +230,87 @@ Definition check_eq (old new : msg) : bool :=
 (* isize::MAX: vec![0; n] above it panics with "capacity overflow" *)
 Definition isize_max : N := 9223372036854775807.
 
+(* The three loops of read, parameterised by the reader of the elements (so that lemmas
+   about them are stated once; [read] below instantiates [rd] with itself). *)
+Section ReadLoops.
+Variable p : prof.
+Variable rd : msg -> bytes -> rres.
+
+Fixpoint read_trame (l : list msg) (input : bytes) (acc : list msg) (a : N) : rres :=
+  match l with
+  | [] => ROk (MTrame (rev acc)) input a
+  | x :: tl =>
+      match rd x input with
+      | ROk x' r a' => read_trame tl r (x' :: acc) (N.max a a')
+      | RErr e r a' => RErr e r (N.max a a')
+      | RPanic => RPanic
+      | RSpin => RSpin
+      end
+  end.
+
+(* one field of a Component: sized through a sub-cursor when a Size option named it *)
+Definition read_field (v : msg) (input : bytes) (size : option N) : rres :=
+  match size with
+  | Some size =>
+      if isize_max <? size then RPanic            (* vec![0; size]: capacity overflow *)
+      else match take (N.to_nat size) input with
+           | None => RErr EIo [] size
+           | Some (local, rest) =>
+               match rd v local with
+               | ROk v' _ a' => ROk v' rest (N.max size a')   (* left-over of the sub-cursor is dropped *)
+               | RErr e _ a' => RErr e rest (N.max size a')
+               | RPanic => RPanic
+               | RSpin => RSpin
+               end
+           end
+  | None => rd v input
+  end.
+
+Fixpoint read_comp (fs : list (string * msg)) (input : bytes) (skip : list string) (dyn : list (string * N))
+         (acc : list (string * msg)) (a : N) : rres :=
+  match fs with
+  | [] => ROk (MComp (rev acc)) input a
+  | (name, v) :: tl =>
+      if mem name skip then read_comp tl input skip dyn ((name, v) :: acc) a
+      else
+        match read_field v input (dyn_lookup name dyn) with
+        | ROk v' rest a' =>
+            match options p v' with
+            | OPanic => RPanic
+            | OSkip f => read_comp tl rest (f :: skip) dyn ((name, v') :: acc) (N.max a a')
+            | OSize f n => read_comp tl rest skip ((f, n) :: dyn) ((name, v') :: acc) (N.max a a')
+            | ONone => read_comp tl rest skip dyn ((name, v') :: acc) (N.max a a')
+            end
+        | RErr e rest a' => RErr e rest (N.max a a')
+        | RPanic => RPanic
+        | RSpin => RSpin
+        end
+  end.
+
+End ReadLoops.
+
+(* Array::read: elements until one fails; an element that succeeds without consuming
+   anything would loop forever.  [rdt] reads one element from the template, [mk] rebuilds
+   the array from the elements read. *)
+Section ReadArray.
+Variable rdt : bytes -> rres.
+Variable mk : list msg -> msg.
+Fixpoint read_array (fuel : nat) (input : bytes) (acc : list msg) (a : N) : rres :=
+  match fuel with
+  | O => RSpin
+  | S fuel' =>
+      match rdt input with
+      | ROk e r a' =>
+          if Nat.eqb (List.length r) (List.length input) then RSpin
+          else read_array fuel' r (e :: acc) (N.max a a')
+      | RErr _ r a' => ROk (mk (rev acc)) r (N.max a a')
+      | RPanic => RPanic
+      | RSpin => RSpin
+      end
+  end.
+End ReadArray.
+
+
 Section Read.
 Variable p : prof.
 
@@ -251,60 +332,13 @@ Fixpoint read (m : msg) (input : bytes) {struct m} : rres :=
   | MBytes b =>
       match b with
       | [] => ROk (MBytes input) [] 0                       (* read_to_end *)
-      | _ :: _ => match take (length b) input with
+      | _ :: _ => match take (List.length b) input with
                   | Some (x, r) => ROk (MBytes x) r 0
                   | None => RErr EIo [] 0
                   end
       end
-  | MTrame l =>
-      (fix go (l : list msg) (input : bytes) (acc : list msg) (a : N) : rres :=
-         match l with
-         | [] => ROk (MTrame (rev acc)) input a
-         | x :: tl =>
-             match read x input with
-             | ROk x' r a' => go tl r (x' :: acc) (N.max a a')
-             | RErr e r a' => RErr e r (N.max a a')
-             | RPanic => RPanic
-             | RSpin => RSpin
-             end
-         end) l input [] 0
-  | MComp fs =>
-      (fix go (fs : list (string * msg)) (input : bytes) (skip : list string) (dyn : list (string * N))
-              (acc : list (string * msg)) (a : N) : rres :=
-         match fs with
-         | [] => ROk (MComp (rev acc)) input a
-         | (name, v) :: tl =>
-             if mem name skip then go tl input skip dyn ((name, v) :: acc) a
-             else
-               let r :=
-                 match dyn_lookup name dyn with
-                 | Some size =>
-                     if isize_max <? size then RPanic            (* vec![0; size]: capacity overflow *)
-                     else match take (N.to_nat size) input with
-                          | None => RErr EIo [] size
-                          | Some (local, rest) =>
-                              match read v local with
-                              | ROk v' _ a' => ROk v' rest (N.max size a')   (* left-over of the sub-cursor is dropped *)
-                              | RErr e _ a' => RErr e rest (N.max size a')
-                              | RPanic => RPanic
-                              | RSpin => RSpin
-                              end
-                          end
-                 | None => read v input
-                 end in
-               match r with
-               | ROk v' rest a' =>
-                   match options p v' with
-                   | OPanic => RPanic
-                   | OSkip f => go tl rest (f :: skip) dyn ((name, v') :: acc) (N.max a a')
-                   | OSize f n => go tl rest skip ((f, n) :: dyn) ((name, v') :: acc) (N.max a a')
-                   | ONone => go tl rest skip dyn ((name, v') :: acc) (N.max a a')
-                   end
-               | RErr e rest a' => RErr e rest (N.max a a')
-               | RPanic => RPanic
-               | RSpin => RSpin
-               end
-         end) fs input [] [] [] 0
+  | MTrame l => read_trame read l input [] 0
+  | MComp fs => read_comp p read fs input [] [] [] 0
   | MCheck m' =>
       match read m' input with
       | ROk new r a => if check_eq m' new then ROk (MCheck new) r a else RErr EInvalidConst r a
@@ -326,20 +360,7 @@ Fixpoint read (m : msg) (input : bytes) {struct m} : rres :=
   | MArray elems factory =>
       match factory with
       | None => RPanic                                       (* "Try reading a non empty array" *)
-      | Some tmpl =>
-          (fix loop (fuel : nat) (input : bytes) (acc : list msg) (a : N) : rres :=
-             match fuel with
-             | O => RSpin
-             | S fuel' =>
-                 match read tmpl input with
-                 | ROk e r a' =>
-                     if Nat.eqb (length r) (length input) then RSpin   (* an element that consumes nothing: endless loop *)
-                     else loop fuel' r (e :: acc) (N.max a a')
-                 | RErr _ r a' => ROk (MArray (elems ++ rev acc) factory) r (N.max a a')
-                 | RPanic => RPanic
-                 | RSpin => RSpin
-                 end
-             end) (S (length input)) input [] 0
+      | Some tmpl => read_array (read tmpl) (fun l => MArray (elems ++ l) (Some tmpl)) (S (List.length input)) input [] 0
       end
   end.
 End Read.
